@@ -3,7 +3,7 @@
 //!   simchild LOG SCRIPT ARGS...
 //!
 //! Appends one record to LOG: the number of ARGS, each ARG as
-//! "<len>:<bytes>", the working directory, how many bytes its standard input
+//! "<len>:<bytes>", the working directory (path, and "DIR dev:ino"), how many bytes its standard input
 //! still held ("STDIN n": a child must not be able to read its parent's
 //! argument stream); then consumes the first line of
 //! SCRIPT's remaining outcomes ("exit N" / "signal N") — the position is kept
@@ -31,6 +31,11 @@ fn main() {
     let cwd = std::env::current_dir().map(|p| p.into_os_string()).unwrap_or_default();
     rec.extend_from_slice(format!("CWD {}:", cwd.as_bytes().len()).as_bytes());
     rec.extend_from_slice(cwd.as_bytes());
+    // the working directory by identity too (getcwd fails beyond PATH_MAX)
+    if let Ok(m) = std::fs::metadata(".") {
+        use std::os::unix::fs::MetadataExt;
+        rec.extend_from_slice(format!("\nDIR {}:{}", m.dev(), m.ino()).as_bytes());
+    }
     // what is readable on fd 0 (the harness guarantees an end of file)
     let mut n = 0usize;
     {
